@@ -378,6 +378,7 @@ type world struct {
 	steps                        []string
 	same                         [][2]int
 	peers                        map[int]*sess
+	taken                        map[int]bool // ports that had a purpose in this case (never given a second one)
 	silent                       map[int]bool
 	nextSid                      int
 	runTag                       string
@@ -400,7 +401,7 @@ type worldOpts struct {
 
 func newWorld(o worldOpts) (*world, error) {
 	w := &world{addr: o.addr, ranges: o.ranges, allow: expandRanges(o.ranges), maxp: o.maxp, hbeat: o.hbeat,
-		tsq: newSquatter("tcp", o.addr), usq: newSquatter("udp", o.addr), peers: map[int]*sess{}, silent: map[int]bool{},
+		tsq: newSquatter("tcp", o.addr), usq: newSquatter("udp", o.addr), peers: map[int]*sess{}, silent: map[int]bool{}, taken: map[int]bool{},
 		nextSid: 1, runTag: o.runTag, rec: o.rec, label: o.label}
 	var err error
 	for try := 0; try < 4; try++ {
@@ -440,6 +441,19 @@ func newWorld(o worldOpts) (*world, error) {
 }
 
 func (w *world) last() int { return len(w.steps) - 1 }
+
+// pick: a port of the allowed range that had no purpose in this case yet (explicit ports are chosen
+// right before their first use, so a server-chosen port of an earlier registration is never hit)
+func (w *world) pick() int {
+	for _, p := range w.allow {
+		if !w.taken[p] {
+			w.taken[p] = true
+			return p
+		}
+	}
+	w.harnessFail("no unused port left in the allowed range")
+	return 0
+}
 
 func (w *world) pair(i, j int) {
 	if i >= 0 && j >= 0 && i != j {
@@ -495,6 +509,9 @@ func (w *world) observe() string {
 		uu = usedPorts(w.rc.UDPPortManager)
 		tb = osBusy("tcp", w.addr, w.allow)
 		ub = osBusy("udp", w.addr, w.allow)
+	}
+	for _, p := range append(append(append(append([]int{}, tu...), uu...), w.tsq.ports()...), w.usq.ports()...) {
+		w.taken[p] = true
 	}
 	names := w.srv.Svc.VerifC10Names()
 	ss := w.srv.Svc.VerifC10Sessions()
@@ -896,6 +913,7 @@ func (w *world) checkTCPBystander(c int, name string, port int) bool {
 		}
 		if ok && got == name {
 			wc.Close()
+			w.drainReq(s)
 			return true
 		}
 	}
@@ -946,7 +964,16 @@ func (w *world) serveHTTP(c int, host, path, name string) (net.Conn, bool) {
 		return nil, false
 	}
 	resp.Body.Close()
+	w.drainReq(s)
 	return wc, true
+}
+
+// drainReq: GetWorkConn asks for a replacement right after it took a connection; that request is not
+// answered and must not be mistaken for the next taker's
+func (w *world) drainReq(s *sess) {
+	if w.sync(s) {
+		s.p.Skipped()
+	}
 }
 
 // serveUDP: the work connection a udp proxy asks for about 500 ms after its registration
@@ -963,6 +990,10 @@ func (w *world) serveUDP(c int, name string) (net.Conn, string) {
 		}
 		return nil, fmt.Sprintf("no StartWorkConn for %s on the offered connection (read ok=%v, proxy %q)", name, ok, who)
 	}
+	// UDPProxy.Run stores the connection a moment after StartWorkConn went out; a Close in between
+	// would not see it (driver udprace looks at that window on purpose)
+	time.Sleep(150 * time.Millisecond)
+	w.drainReq(s)
 	return wc, ""
 }
 
